@@ -31,7 +31,7 @@ def _do(hists):
     return out
 
 
-def bfs(run, step, max_depth, workers=None, chunk=16, label=""):
+def bfs(run, step, max_depth, workers=None, chunk=16, label="", full_depth=0):
     """Returns (states, transitions, fixpoint_reached, max_depth_seen)."""
     global _STEP
     _STEP = step
@@ -60,12 +60,15 @@ def bfs(run, step, max_depth, workers=None, chunk=16, label=""):
                     run.add_result({"ev": 1, "h": jhash(r["hist"]), "nt": True, "out": r.get("out"),
                                     "viol": r.get("viol", ()), "count": r.get("count", {})})
                     k = jhash(r["canon"])
-                    if k not in seen:
+                    new = k not in seen
+                    if new:
                         seen.add(k)
                         states += 1
                         longest = r["hist"]
-                        if not r.get("terminal"):
-                            nxt.append((r["hist"], r["enabled"]))
+                    # below full_depth every history is expanded whatever its canonical state (guards against a canonical
+                    # projection that misses state a future change adds)
+                    if (new or depth < full_depth) and not r.get("terminal"):
+                        nxt.append((r["hist"], r["enabled"]))
             frontier = nxt
     finally:
         if pool:
